@@ -7,8 +7,10 @@ filters (`Node::filtered_by_room` node.rs:576-653, `Edge::filtered_by_room` edge
 `Node::get_daily_nodes_for_room`, the deletion-log and daily-log readers) and `rooms_for_peer`
 (authorisation_service.rs:984) over the shared room model (`Model/Room.lean`).
 
-The per-request guard and database call are NOT written here: they are regenerated from the source
-by translator T1 into `Gen/ServeTable.lean`; `serve` interprets that table.
+The per-request guard, the membership re-check in front of the arms (`Entry.recheck`) and the database
+call are NOT written here, and neither is the admission test of the room-definition event
+(`EventRule`): they are regenerated from the source by translator T1 into `Gen/ServeTable.lean`
+(`Gen.code : Code`); `serve` and `roomEvent` interpret that description.
 Import-free apart from the shared room model (core Lean only).
 -/
 namespace Discret.Serve
@@ -41,9 +43,34 @@ structure Entry where
   source : Source
   /-- the database call sits inside the guarded branch and its room argument is the guarded variable -/
   guardedRoomIsQueried : Bool
+  /-- the request kind is listed in the prelude of `process_inbound` that, before the arms, asks the
+      authorisation service for `rooms_for_peer(proven key, now())` and removes the requested room from
+      `allowed_room` when it is not in the result (false for every kind when the prelude is absent) -/
+  recheck : Bool
 deriving DecidableEq, Repr
 
 def lookup (tbl : List Entry) (k : QueryKind) : Option Entry := tbl.find? (·.kind = k)
+
+/-- the test `LocalPeerService::process_local_event(RoomDefinitionChanged(room))` applies to the proven key
+    before it admits the room to the connection -/
+inductive AdmitTest where
+  | validNow   -- `room.is_user_valid_at(&key, now())`
+  | hasUser    -- `room.has_user(&key)`: named in a user list, enabled or not
+deriving DecidableEq, Repr
+
+/-- what the room-definition event handler does with a live connection (regenerated from
+    peer_inbound_service.rs) -/
+structure EventRule where
+  admit : AdmitTest
+  /-- the handler has an else branch that takes the room away from the connection -/
+  revokes : Bool
+deriving DecidableEq, Repr
+
+/-- everything translator T1 reads from the source -/
+structure Code where
+  table : List Entry
+  event : EventRule
+deriving DecidableEq, Repr
 
 /-! ### the world served: room definitions over time and the rows of each room -/
 
@@ -101,7 +128,9 @@ def Conn.init : Conn := { key := none, ready := true, allowed := [] }
 
 structure Defects where
   /-- a room admitted to a connection is never removed from it: a member disabled later keeps being
-      served (peer_outbound_service.rs:484-494, no revocation path) -/
+      served (peer_outbound_service.rs:484-494, no revocation path). When the switch is on the model
+      ignores whatever re-check / revocation the regenerated `Code` describes (the code before the
+      repair); when it is off the regenerated `Code` decides. -/
   allowedNeverRevoked : Bool
   /-- on a room-definition event the room is admitted when the key merely *appears* in a user list
       (`Room::has_user`, room.rs:91-106), enabled or not. FIXED in /repo by 81b6434
@@ -204,55 +233,77 @@ def fetch (w : World) (q : Query) : List Item :=
     | none => []
   | _ => []
 
-def guardHolds (d : Defects) (w : World) (c : Conn) (own : Key) (g : Guard) (room : Option RoomId) : Bool :=
+/-- the prelude of `process_inbound`: for a request kind it lists, a room of the allowed table is kept
+    only if `rooms_for_peer(proven key, now())` still contains it (an unbound key is the empty key: member
+    of nothing). `memberNow` is that lookup: the authorisation service keeps one definition per room id. -/
+def recheck (d : Defects) (e : Entry) (w : World) (c : Conn) (room : Option RoomId) : Conn :=
+  if e.recheck && !d.allowedNeverRevoked then
+    match room with
+    | some r =>
+      if c.allowed.contains r then
+        let still := match c.key with
+          | some k => memberNow w k r
+          | none => false
+        if still then c else { c with allowed := c.allowed.filter (· ≠ r) }
+      else c
+    | none => c
+  else c
+
+def guardHolds (c : Conn) (own : Key) (g : Guard) (room : Option RoomId) : Bool :=
   match g with
   | .none => true
   | .keyIsOwn => c.key = some own
   | .keyProvenAndReady => c.key.isSome && c.ready
   | .allowedContainsRoom =>
-    match room, c.key with
-    | some r, some k => c.allowed.contains r && (d.allowedNeverRevoked || memberNow w k r)
-    | some r, none => c.allowed.contains r && d.allowedNeverRevoked
-    | none, _ => false
+    match room with
+    | some r => c.allowed.contains r
+    | none => false
 
-/-- `process_inbound` for one request, interpreted over the regenerated table -/
-def serve (d : Defects) (tbl : List Entry) (w : World) (own : Key) (c : Conn) (q : Query) : Conn × Answer :=
-  match lookup tbl q.kind with
+/-- one arm of `process_inbound`, described by its table entry -/
+def serveArm (e : Entry) (w : World) (own : Key) (c : Conn) (q : Query) : Conn × Answer :=
+  if guardHolds c own e.guard q.room? then
+    match e.source with
+    | .sign => (c, .identity)
+    | .fingerprint => (c, .fingerprint)
+    | .roomsForPeer =>
+      match c.key with
+      | some k =>
+        let rooms := roomsForPeer w k
+        -- `init_rooms = allowed_room.is_empty()`: only the first list fills the table
+        let allowed := if c.allowed.isEmpty then rooms.foldl insertRoom c.allowed else c.allowed
+        ({ c with allowed := allowed }, .roomList rooms)
+      | none => (c, .roomList [])
+    | _ =>
+      match q.room? with
+      | some r => (c, .data r (fetch w q))
+      | none => (c, .silent)
+  else
+    match e.guard with
+    | .allowedContainsRoom => (c, .refused)
+    | _ => (c, .silent)
+
+/-- `process_inbound` for one request, interpreted over the regenerated description: the membership
+    re-check of the prelude, then the arm -/
+def serve (d : Defects) (cd : Code) (w : World) (own : Key) (c : Conn) (q : Query) : Conn × Answer :=
+  match lookup cd.table q.kind with
   | none => (c, .silent)
-  | some e =>
-    if guardHolds d w c own e.guard q.room? then
-      match e.source with
-      | .sign => (c, .identity)
-      | .fingerprint => (c, .fingerprint)
-      | .roomsForPeer =>
-        match c.key with
-        | some k =>
-          let rooms := roomsForPeer w k
-          -- `init_rooms = allowed_room.is_empty()`: only the first list fills the table
-          let allowed := if c.allowed.isEmpty then rooms.foldl insertRoom c.allowed else c.allowed
-          ({ c with allowed := allowed }, .roomList rooms)
-        | none => (c, .roomList [])
-      | _ =>
-        match q.room? with
-        | some r => (c, .data r (fetch w q))
-        | none => (c, .silent)
-    else
-      match e.guard with
-      | .allowedContainsRoom => (c, .refused)
-      | _ => (c, .silent)
+  | some e => serveArm e w own (recheck d e w c q.room?) q
 
 /-- the admission test of `process_local_event(RoomDefinitionChanged(room))` -/
-def admits (d : Defects) (w : World) (room : Room) (k : Key) : Bool :=
-  if d.hasUserCountsDisabled then room.hasUser k else room.isUserValidAt k w.now
+def admits (d : Defects) (ev : EventRule) (w : World) (room : Room) (k : Key) : Bool :=
+  if d.hasUserCountsDisabled then room.hasUser k
+  else match ev.admit with
+    | .validNow => room.isUserValidAt k w.now
+    | .hasUser => room.hasUser k
 
-/-- `process_local_event(RoomDefinitionChanged(room))` then `add_allowed_room` -/
-def roomEvent (d : Defects) (w : World) (c : Conn) (room : Room) : Conn :=
+/-- `process_local_event(RoomDefinitionChanged(room))` then `add_allowed_room` in the serving loop -/
+def roomEvent (d : Defects) (ev : EventRule) (w : World) (c : Conn) (room : Room) : Conn :=
   match c.key with
   | none => c
   | some k =>
-    if admits d w room k then { c with allowed := insertRoom c.allowed room.id }
-    else if d.allowedNeverRevoked then c
-    else { c with allowed := c.allowed.filter (· ≠ room.id) }
+    if admits d ev w room k then { c with allowed := insertRoom c.allowed room.id }
+    else if ev.revokes && !d.allowedNeverRevoked then { c with allowed := c.allowed.filter (· ≠ room.id) }
+    else c
 
 /-! ### a connection's life: operations -/
 
@@ -275,24 +326,24 @@ def installRoom (w : World) (room : Room) : World :=
 def dataChange (w : World) (f : World → World) : World :=
   { f w with now := w.now, rooms := w.rooms, history := w.history }
 
-def step (d : Defects) (tbl : List Entry) (own : Key) (s : State) : Op → State × Answer
+def step (d : Defects) (cd : Code) (own : Key) (s : State) : Op → State × Answer
   | .auth k ready =>
     match s.c.key with
     | none => ({ s with c := { s.c with key := some k, ready := ready } }, .silent)
     | some _ => (s, .silent)
   | .setReady b => ({ s with c := { s.c with ready := b } }, .silent)
-  | .query q => let (c', a) := serve d tbl s.w own s.c q; ({ s with c := c' }, a)
+  | .query q => let (c', a) := serve d cd s.w own s.c q; ({ s with c := c' }, a)
   | .advance t => ({ s with w := { s.w with now := max t s.w.now } }, .silent)
   | .install room =>
     let w' := installRoom s.w room
-    ({ w := w', c := roomEvent d w' s.c room }, .silent)
+    ({ w := w', c := roomEvent d cd.event w' s.c room }, .silent)
   | .world f => ({ s with w := dataChange s.w f }, .silent)
 
-def run (d : Defects) (tbl : List Entry) (own : Key) : State → List Op → State × List Answer
+def run (d : Defects) (cd : Code) (own : Key) : State → List Op → State × List Answer
   | s, [] => (s, [])
   | s, op :: ops =>
-    let (s1, a) := step d tbl own s op
-    let (s2, as) := run d tbl own s1 ops
+    let (s1, a) := step d cd own s op
+    let (s2, as) := run d cd own s1 ops
     (s2, a :: as)
 
 def World.empty : World :=
